@@ -37,6 +37,9 @@ func runC01Types(c *Ctx, w *ATWorld) {
 		{"char", memdb.Column{Type: memdb.TChar, Length: 4, Nullable: true}, "ab", "'cd'"},
 		{"varchar-looks-like-base64", memdb.Column{Type: memdb.TVarchar, Length: 16, Nullable: true}, "test", "'abcd'"},
 		{"varchar-is-base64-of-text", memdb.Column{Type: memdb.TVarchar, Length: 16, Nullable: true}, "dGVzdA==", "'YWJj'"},
+		// base64 characters and a line break (Go's base64 reader skips CR and LF), length not a multiple of four
+		{"varchar-base64-chars-and-line-break", memdb.Column{Type: memdb.TVarchar, Length: 16, Nullable: true}, "John\n", "'test\r\n'"},
+		{"text-base64-chars-and-line-break", memdb.Column{Type: memdb.TText, Nullable: true}, "abcd\nefg", "'ab\ncd\n'"},
 		{"blob", memdb.Column{Type: memdb.TBlob, Nullable: true}, []byte{1, 2, 255}, "x'0a0b'"},
 		{"longblob", memdb.Column{Type: memdb.TLongBlob, Nullable: true}, []byte{1, 2, 255}, "x'0a0b'"},
 		{"varbinary", memdb.Column{Type: memdb.TVarBinary, Length: 8, Nullable: true}, []byte{1, 2, 255}, "x'0a0b'"},
